@@ -43,20 +43,21 @@ theorem backoff_bounded (env : CryptoEnv) (o : Oracle) (c : Ctx) (now : Int)
   rintro e ⟨e0, he0, rfl⟩
   have h0 := h e0 he0
   have h1 : 1 ≤ Generated.MAX_RECONNECT_INTERVAL := by decide
-  generalize Generated.MAX_RECONNECT_INTERVAL = M at h0 h1 ⊢
-  have clamp : ∀ t : Nat, (if t > M then M else t) ≤ M := by intro t; split <;> omega
+  have clamp : ∀ t : Nat, (if Generated.backoffCapped t = true then Generated.MAX_RECONNECT_INTERVAL else t) ≤ Generated.MAX_RECONNECT_INTERVAL := by
+    intro t; simp only [Generated.backoffCapped, decide_eq_true_eq]; split <;> omega
+  generalize Generated.MAX_RECONNECT_INTERVAL = M at h0 h1 clamp ⊢
   split
   · -- a resolved address is a peer: the entry is reset
     split
     · exact ⟨h1, Or.inl (by show now + ((1 : Nat) : Int) ≤ now + (M : Int); omega)⟩
     · dsimp only
-      generalize (if 0 + 1 > Generated.RECONNECT_TRIES then ((0 : Nat), 1 * 2) else (0 + 1, 1)).snd = t
+      generalize (if Generated.backoffDoubles (0 + 1) = true then ((0 : Nat), 1 * 2) else (0 + 1, 1)).snd = t
       have := clamp t
       exact ⟨this, Or.inl (by omega)⟩
   · split
     · exact ⟨h0, Or.inr ⟨e0, he0, rfl⟩⟩
     · dsimp only
-      generalize (if e0.tries + 1 > Generated.RECONNECT_TRIES then ((0 : Nat), e0.timeout * 2) else (e0.tries + 1, e0.timeout)).snd = t
+      generalize (if Generated.backoffDoubles (e0.tries + 1) = true then ((0 : Nat), e0.timeout * 2) else (e0.tries + 1, e0.timeout)).snd = t
       have := clamp t
       exact ⟨this, Or.inl (by omega)⟩
 
